@@ -16,7 +16,7 @@ import traceback
 
 ROOT = os.path.dirname(os.path.dirname(os.path.abspath(__file__)))
 sys.path.insert(0, ROOT)
-sys.path.insert(0, "/repo")
+sys.path.insert(0, __import__("os").environ.get("VERIF_REPO", "/repo"))
 sys.dont_write_bytecode = True
 
 from harness import tlc  # noqa: E402
@@ -171,7 +171,8 @@ def main():
     with open(os.path.join(ROOT, ".work", f"{prop}_violations.json"), "w") as fh:
         json.dump(unknown[:3000], fh)
     wall = time.time() - t0
-    write_evidence(prop, a.tier, seed, res, wall, len(unknown))
+    if not os.environ.get("VERIF_NO_EVIDENCE"):          # set only by development aids (harness/mutation.py) that run against a scratch copy
+        write_evidence(prop, a.tier, seed, res, wall, len(unknown))
     print(f"{prop} tier={a.tier} seed={seed}: behaviours={res.get('traces')} events={res.get('evaluations')} "
           f"tlc_states={res.get('states')} violations={len(unknown)} known={sum(c for _, c in known_seen.values())} wall={wall:.1f}s")
     sys.exit(1 if unknown else 0)
